@@ -31,17 +31,21 @@ def tu_check(tu):
     fe = findend.c_check(tu)
     mx = maxmin.c_check(tu)
     rw = rangewire.c_check(tu)
-    bn["findings"] = bn["findings"] + ei["findings"] + fe["findings"] + mx["findings"] + rw["findings"] + sn["findings"]
+    from ..rules import pins
+    gh, ghf = pins.ghost_reads_in(tu, ["BTree_findRangeEnd", "BTree_rangeSearch", "Bucket_findRangeEnd", "Bucket_rangeSearch",
+                                       "BTreeItems_seek", "BTree_maxminKey", "Bucket_maxminKey", "BTreeItems_item",
+                                       "BTreeItems_slice", "BTreeItems_length_or_nonzero"])
+    bn["findings"] = bn["findings"] + ei["findings"] + fe["findings"] + mx["findings"] + rw["findings"] + sn["findings"] + gh
     bn["rw"] = rw["n"]
     bn["fe"] = fe["n"]
     bn["mx"] = mx["n"]
     bn["ei"] = ei["stats"]["error_result_sites"]
-    return dict(rw=bn["rw"], mx=bn["mx"], fe=bn["fe"], ei=bn["ei"], cross={repr(k): v for k, v in cross.items()}, unb={repr(k): v for k, v in unb.items()}, range={repr(k): v for k, v in t.items()}, seek=sa, seeknet=dict(n=sn["n"], kinds=sn["kinds"], dropped=sn["dropped"], returns=sn["returns"]), findings=bn["findings"], bn=bn["n"])
+    return dict(rw=bn["rw"], mx=bn["mx"], fe=bn["fe"], ei=bn["ei"], cross={repr(k): v for k, v in cross.items()}, unb={repr(k): v for k, v in unb.items()}, range={repr(k): v for k, v in t.items()}, seek=sa, ghost_functions=ghf, seeknet=dict(n=sn["n"], kinds=sn["kinds"], dropped=sn["dropped"], returns=sn["returns"]), findings=bn["findings"], bn=bn["n"])
 
 
 def run(tier="quick", seed=0, use_cache=True):
     res = engine.Result("C02")
-    res.rules = ["RANGE-TABLE", "BOUND-NORM", "SEEK-ALGEBRA", "SEEK-NET", "ITER-CONTINUE", "TREE-EXCLUDE", "UNBOUNDED-END", "RANGE-SHAPE", "ENDS-CROSS", "ERR-IGNORED", "MINMAX-TABLE", "FINDEND-TABLE", "RANGE-WIRING"]
+    res.rules = ["RANGE-TABLE", "BOUND-NORM", "SEEK-ALGEBRA", "SEEK-NET", "ITER-CONTINUE", "TREE-EXCLUDE", "UNBOUNDED-END", "RANGE-SHAPE", "ENDS-CROSS", "ERR-IGNORED", "MINMAX-TABLE", "FINDEND-TABLE", "RANGE-WIRING", "GHOST-READ"]
     res.exhaustive = True
     res.explanation = (
         "Leaf-level and cursor-level pieces of the range machinery, decided "
@@ -61,7 +65,10 @@ def run(tier="quick", seed=0, use_cache=True):
         "followed, each loop unrolled 3 times, contradictory paths dropped by "
         "bounds on linear forms); with base(leaf) the index of a leaf's first "
         "item every successful return must have committed pseudoindex == i "
-        "and base(committed leaf) + committed offset == i. ITER-CONTINUE: the "
+        "and base(committed leaf) + committed offset == i. GHOST-READ: the pin "
+        "typestate of C05 restricted to the range / seek / min-max functions and "
+        "their helpers - an end point computed from a field of an unloaded leaf "
+        "is not the end of the range. ITER-CONTINUE: the "
         "Python lazy sequence moves on to the next leaf unless a leaf after "
         "the first yielded nothing (decision table over which leaves yield). "
         "TREE-EXCLUDE: decision table of the range arguments the Python lazy "
@@ -185,6 +192,8 @@ def run(tier="quick", seed=0, use_cache=True):
     res.count("UNBOUNDED-END", 16 * len(out))
     res.count("RANGE-TABLE", 8 * len(out))
     res.count("SEEK-ALGEBRA", len(spec_seek) * len(out))
+    res.count("GHOST-READ", sum(len(r["ghost_functions"]) for r in out.values()))
+    res.floor("functions of the range machinery under the pin typestate (OO)", len(out["OO"]["ghost_functions"]), 8)
     res.count("SEEK-NET", sum(r["seeknet"]["n"] for r in out.values()))
     res.floor("successful paths of BTreeItems_seek interpreted (OO)", out["OO"]["seeknet"]["n"], 10)
     res.floor("kinds of moves seen by SEEK-NET (OO: within / next / prev)", len(out["OO"]["seeknet"]["kinds"]), 3)
